@@ -171,7 +171,7 @@ static int step(int e)
         if (r != 0 && r != CO_SDO_ERR_RANGE && r != CO_SDO_ERR_TOS && r != CO_SDO_ERR_OBJ_MAP && r != CO_SDO_ERR_PARA_INCOMP) mc_fail("tpdo-param-write", "'%s' answered with %08X", EN[e], r);
         break; }
     }
-    (void)CONodeGetErr(&Node);
+    nc_poll();                   
     /* ---- compare TPDO frames ---- */
     {
         int n = 0, used[8] = { 0 };
